@@ -24,6 +24,8 @@ FLAVOURS = {
     "off-asan": {"cxx": "g++", "flags": SAN, "run_scale": 0.35},
     # the shipped default without sanitizers (cheap enough for the quick tier of C04)
     "off-O2": {"cxx": "g++", "flags": ["-O2"], "run_scale": 0.3},
+    # the usual embedded configuration: exceptions disabled (the string family needs them for its reference model)
+    "noexc-O2": {"cxx": "g++", "flags": ["-O2", "-fno-exceptions", "-DTETL_ENABLE_CONTRACT_CHECKS=1"], "run_scale": 0.3, "skip_families": ["str", "bits"]},
     "chk-O0": {"cxx": "g++", "flags": ["-O0", "-DTETL_ENABLE_CONTRACT_CHECKS=1"], "run_scale": 0.5},
     # a second compiler (clang 14 cannot compile the bitset and variant headers - P0634 and pack-expansion gaps - so those two
     # families are g++ only; tuple_cat does not compile either and is skipped by the fn driver under clang); exercises the `#if defined(__clang__)` branches and another optimiser
@@ -134,8 +136,8 @@ PROPS = {
                 "an address-keyed lifetime registry, the live set inside each owner must equal [begin,end) after every step "
                 "and be empty after the owner's destructor; non-trivial and distinct as for C01",
         "assumptions": COMMON_ASSUME,
-        "quick": {"flavours": ["chk-O2", "chk-clang"], "runs": 1200000, "max_seconds": 40},
-        "thorough": {"flavours": ["chk-O2", "chk-asan", "off-asan", "chk-O0", "chk-clang"], "runs": 12000000, "max_seconds": 240},
+        "quick": {"flavours": ["chk-O2", "chk-clang", "noexc-O2"], "runs": 1200000, "max_seconds": 40},
+        "thorough": {"flavours": ["chk-O2", "chk-asan", "off-asan", "chk-O0", "chk-clang", "noexc-O2"], "runs": 12000000, "max_seconds": 240},
     },
     "C05": {
         "families": ["vec", "str", "set", "ovx", "bits", "fn", "views"],
